@@ -1,7 +1,7 @@
 (* Properties_C15.v -- trace and debug symbols report what is actually executing.
    Models: AsmLayout.v (symbols written by the assembler), SimModel.v (lookupSymbol, the trace line prefix). *)
 From Coq Require Import ZArith List String.
-From HexVerif Require Import WMap Isa SimModel SimProofs SimProofs15 AsmModel AsmLayout AsmSpec AsmStatements AsmLayoutProofs.
+From HexVerif Require Import WMap Isa SimModel SimProofs SimProofs15 AsmModel AsmLayout AsmSpec AsmStatements AsmLayoutProofs Loader.
 Import ListNotations.
 Local Open Scope Z_scope.
 
@@ -42,6 +42,17 @@ Theorem C15_trace_columns : forall tab n s inp a' inp',
     trace_prefix tab s' = (Z.of_nat n, pc a', trace_symbol tab (pc a'), fetch a' / 16, fetch a' mod 16).
 Proof. exact trace_columns_are_isa. Qed.
 Print Assumptions C15_trace_columns.
+
+(* what the simulator's loader (model of Processor::load) reads back from the file the assembler model writes is
+   exactly the image, word for word, and exactly the symbol table (names without NUL bytes, offsets below 2^32) *)
+Theorem C15_loader_roundtrip : forall L img syms,
+  emit_go (l_items L) 0 = (img, syms) ->
+  Z.of_nat (List.length img) = l_size L -> l_size L mod 4 = 0 -> l_size L <= 800000 ->
+  Z.of_nat (List.length syms) < W32 ->
+  Forall (fun p => no_nul (bytes_of_string (fst p))) syms -> Forall (fun p => 0 <= snd p < W32) syms ->
+  load_file (fst (fst (emit_bin L))) = Some (words_of_bytes img, map (fun p => (bytes_of_string (fst p), snd p)) syms).
+Proof. exact load_emit_bin. Qed.
+Print Assumptions C15_loader_roundtrip.
 
 (* The last sentence of the property ("the sequence of procedure entries in a trace equals the call sequence of the
    source program") additionally needs the compiler's correctness (C01); it is not proved here: tools/c15.py decides
